@@ -155,7 +155,7 @@ CONTRACTS = [
                        " and handler_finished(some(handle.stdout)) and handler_finished(some(handle.stderr))"
                        " and (not self._serialize_args_options or ((ArgsEmpty(self._args) or Path_join(self._output_path, 'args.json') in g_json_written)"
                        "      and (OptionsEmpty(self._options) or Path_join(self._output_path, 'options.json') in g_json_written))))",
-                       before="ctx.version_index.insert_output_version(...", optional=True),
+                       before="call:insert_output_version", optional=True),
                  Ghost("self.g_finished_ok = True", at_exit=True),
              ]),
 ]
